@@ -4334,7 +4334,8 @@ class Session(_SessionClassMethods, EventTarget):
                 "Instance '%s' is not persisted" % state_str(state)
             )
 
-        if state._deleted:
+        was_deleted = state._deleted
+        if was_deleted:
             if revert_deletion:
                 if not state._attached:
                     return
@@ -4363,7 +4364,8 @@ class Session(_SessionClassMethods, EventTarget):
 
         if to_attach:
             self._after_attach(state, obj)
-        elif revert_deletion:
+        elif revert_deletion and was_deleted:
+            # not for a state that was only marked with Session.delete()
             self.dispatch.deleted_to_persistent(self, state)
 
     def _save_or_update_impl(self, state: InstanceState[Any]) -> None:
